@@ -54,6 +54,7 @@ func runC10(w *World, r *Report) {
 
 	r.Rule("C10-R7", "bookkeeping read-modify-write is atomic", "a value written into collectionNames.{data,excludeData,extraInfos,nameMapping} that derives from a read of the same table was read in the same function under the same lock span as the write (same analysis as C19-R8)", 4)
 	c19AtomicRMW(w, r, "C10-R7")
+	c10OneCriticalSection(w, r, "C10-R8")
 
 	cd := w.Func(pkgServer, "MetaCDC", "checkDuplicateCollection")
 	cr := w.Func(pkgServer, "MetaCDC", "Create")
@@ -456,4 +457,62 @@ func onlyWriteThrough(v ssa.Value, d int) bool {
 		}
 	}
 	return true
+}
+
+// c10OneCriticalSection (C10-R8, shared with C19): the overlap scan and the reservation of checkDuplicateCollection are
+// one critical section. Two creates for the same collection are only serialised when the scan that finds "nobody owns
+// it" and the write that records the new owner cannot be separated by another request.
+func c10OneCriticalSection(w *World, r *Report, rule string) {
+	r.Rule(rule, "check and reserve in one critical section", "checkDuplicateCollection (with the helpers it was split into) acquires the collectionNames lock exactly once, in write mode, before its first read of the bookkeeping tables, and does not release it before the last write", 1)
+	cd := w.Func(pkgServer, "MetaCDC", "checkDuplicateCollection")
+	if cd == nil {
+		r.Undecided(rule, "(*MetaCDC).checkDuplicateCollection", 0, "anchor not found")
+		return
+	}
+	var acq []*ssa.Call
+	var mode []string
+	var explicitRel []*ssa.Call
+	for _, g := range familyOf(cd).Funcs {
+		eachInstr(g, func(in ssa.Instruction) {
+			switch x := in.(type) {
+			case *ssa.Call:
+				s := callSym(x.Common())
+				rc := callRecv(x.Common())
+				if rc == nil || !strings.HasSuffix(w.accessPath(rc), ".collectionNames") && !strings.Contains(w.accessPath(rc), ".collectionNames.") {
+					return
+				}
+				switch s.name {
+				case "Lock", "RLock":
+					acq = append(acq, x)
+					mode = append(mode, s.name)
+				case "Unlock", "RUnlock":
+					explicitRel = append(explicitRel, x)
+				}
+			}
+		})
+	}
+	cons := "(*MetaCDC).checkDuplicateCollection | collectionNames lock"
+	switch {
+	case len(acq) == 0:
+		r.Fail(rule, cons, cd.Pos(), "the collectionNames lock is not taken in checkDuplicateCollection")
+	case len(acq) > 1:
+		r.Fail(rule, cons, acq[1].Pos(), fmt.Sprintf("the collectionNames lock is taken %d times (%s): the overlap scan and the reservation are separate critical sections, two concurrent creates for the same collection (or two enable_user_role requests) both pass the scan and both register", len(acq), strings.Join(mode, ", ")))
+	case mode[0] != "Lock":
+		r.Fail(rule, cons, acq[0].Pos(), "the only acquisition is a read lock: the reservation is written without exclusion")
+	case len(explicitRel) > 0:
+		// an explicit unlock is fine only on paths that leave the function right away (reject paths)
+		bad := false
+		for _, u := range explicitRel {
+			for b := range blockReach(u.Block(), nil) {
+				for _, in := range b.Instrs {
+					if mu, ok := in.(*ssa.MapUpdate); ok && strings.Contains(w.accessPath(mu.Map), ".collectionNames.") {
+						bad = true
+					}
+				}
+			}
+		}
+		r.Check(!bad, rule, cons, acq[0].Pos(), "one write-lock span; explicit unlocks only on paths that write nothing afterwards", "the lock is released before a later write of the bookkeeping tables")
+	default:
+		r.OK(rule, cons, acq[0].Pos(), "one write-lock acquisition, released at exit")
+	}
 }
